@@ -359,6 +359,18 @@ class Check:
             self.subs.append(json.load(f))
 
     def prove(self, timeout=1500):
+        # every generated constants file the theorems of this property depend on (directly or through an imported area, e.g.
+        # C12 -> Lexer -> Gen/C09.v) is re-translated from the tree under test first, so that a Gen file left behind by a run
+        # against another tree (mutation experiment, edited /repo) can never be what the proofs are checked against
+        try:
+            gens = sorted({os.path.basename(f)[:-2] for f in closure_files(self.prop) if f.startswith("Gen/")} |
+                          {m for f in closure_files(self.prop)
+                           for m in re.findall(r"\bGen\.(C\d\d\w*)", open(os.path.join(COQ, f)).read())})
+            if gens:
+                import gen_constants
+                gen_constants.generate(gens)
+        except HarnessError:
+            raise
         self.proof = build_proofs(self.prop, timeout=timeout)
         return self.proof
 
